@@ -99,7 +99,7 @@ impl Substitute for syn::Path {
                                 .cartesian_product(output)
                                 .map(|(inputs, output)| syn::ParenthesizedGenericArguments {
                                     paren_token: x1.paren_token,
-                                    inputs: inputs.into_iter().collect(),
+                                    inputs: repunctuate(&x1.inputs, inputs),
                                     output,
                                 })
                                 .map(PathArguments::Parenthesized)
@@ -121,7 +121,7 @@ impl Substitute for syn::Path {
             .multi_cartesian_product()
             .map(|segments| syn::Path {
                 leading_colon: self.leading_colon,
-                segments: segments.into_iter().collect(),
+                segments: repunctuate(&self.segments, segments),
             })
             .collect()
     }
@@ -235,7 +235,7 @@ impl Substitute for syn::AngleBracketedGenericArguments {
             })
             .multi_cartesian_product()
             .map(|args| Self {
-                args: args.into_iter().collect(),
+                args: repunctuate(&self.args, args),
                 ..self.clone()
             })
             .collect()
